@@ -659,6 +659,10 @@ void reftable_reader_free(struct reftable_reader *r)
 	reftable_free(r);
 }
 
+static int reftable_reader_refs_for_unindexed(struct reftable_reader *r,
+					      struct reftable_iterator *it,
+					      uint8_t *oid);
+
 static int reftable_reader_refs_for_indexed(struct reftable_reader *r,
 					    struct reftable_iterator *it,
 					    uint8_t *oid)
@@ -676,12 +680,18 @@ static int reftable_reader_refs_for_indexed(struct reftable_reader *r,
 
 	/* Look through the reverse index. */
 	reftable_record_from_obj(&want_rec, &want);
+	reftable_record_from_obj(&got_rec, &got);
 	err = reader_seek(r, &oit, &want_rec);
+	if (err > 0) {
+		/* the prefix sorts after every object in the table */
+		iterator_set_empty(it);
+		err = 0;
+		goto done;
+	}
 	if (err != 0)
 		goto done;
 
 	/* read out the reftable_obj_record */
-	reftable_record_from_obj(&got_rec, &got);
 	err = iterator_next(&oit, &got_rec);
 	if (err < 0)
 		goto done;
@@ -691,6 +701,13 @@ static int reftable_reader_refs_for_indexed(struct reftable_reader *r,
 		/* didn't find it; return empty iterator */
 		iterator_set_empty(it);
 		err = 0;
+		goto done;
+	}
+
+	if (got.offset_len == 0) {
+		/* The writer omits the position list if it does not fit in a
+		 * block; the object may then be anywhere, so scan all refs. */
+		err = reftable_reader_refs_for_unindexed(r, it, oid);
 		goto done;
 	}
 
